@@ -21,6 +21,16 @@
 (*   [op "set", r, nm, val]       vm.Set(nm, primitive)                       *)
 (*   [op "get", r, nm]            vm.Get(nm)                                  *)
 (*   [op "call", r, nm, args]     vm.Call(nm, nil, args...)                   *)
+(*   [op "interrupt", r, p, k, route]  SpinProgs[p] run (vm.Run of the source   *)
+(*                                or vm.Eval) while the host                   *)
+(*                                sends an interrupt function (which panics)   *)
+(*                                on vm.Interrupt during the k-th call of H:   *)
+(*                                delivered at the next polling point, the run *)
+(*                                is unwound (no catch, no finally), the       *)
+(*                                effects made so far stand, the runtime is at *)
+(*                                rest and every later action finds it so      *)
+(*   [op "limit", r, lim]         vm.SetStackDepthLimit(lim): part of the      *)
+(*                                runtime (kept by Copy, not by New)           *)
 (* Every action is ONE application of S!RunOn (or none): the Go-side calls    *)
 (* set/get/call are the runs of the one-statement programs `nm = val`,        *)
 (* `this.nm`, `nm(args)` (see SetProg/GetProg/CallProg for why these are the  *)
@@ -53,7 +63,9 @@ CONSTANTS MaxRT,        \* runtimes
           MaxK,         \* host panic at call 1..MaxK (0: no host panics)
           PanicFrom,    \* host panics are armed by steps number > PanicFrom only
           GoFrom,       \* set/get/call are taken by steps number > GoFrom only (MaxLen: never)
-          ProgSet       \* indexes of the programs of the pool in use ({}: all)
+          ProgSet,      \* indexes of the programs of the pool in use ({}: all)
+          IntFrom,      \* interrupts are sent by steps number > IntFrom only (MaxLen: never)
+          Limits        \* stack depth limits the Go side configures (with set/get/call, from GoFrom on)
 VARIABLES rts, hist, last
 
 S == INSTANCE ES5Core WITH Dev <- {}
@@ -63,6 +75,8 @@ PS == IF ProgSet = {} THEN 1..Len(Progs) ELSE ProgSet
 Routes == {"source", "script", "program", "foreign-script", "eval"}
 
 Fresh == S!State0(Fuel)
+Lost == [lost |-> TRUE]
+Live(st) == "lost" \notin DOMAIN st
 NoOut == [und |-> FALSE, log |-> <<>>, thr |-> <<>>, v |-> [t |-> "undef"]]
 
 -----------------------------------------------------------------------------
@@ -85,6 +99,7 @@ GetProg(nm) == <<[k |-> "expr", e |-> [k |-> "dot", o |-> [k |-> "this"], n |-> 
 CallProg(nm, args) == <<[k |-> "expr", e |-> [k |-> "call", f |-> IdN(nm), args |-> [i \in 1..Len(args) |-> Lit(args[i])]]]>>
 
 ProgOf(a) == CASE a.op \in {"run", "hostpanic"} -> Progs[a.p]
+               [] a.op = "interrupt" -> SpinProgs[a.p]
                [] a.op = "set" -> SetProg(a.nm, a.val)
                [] a.op = "get" -> GetProg(a.nm)
                [] a.op = "call" -> CallProg(a.nm, a.args)
@@ -93,7 +108,9 @@ ProgOf(a) == CASE a.op \in {"run", "hostpanic"} -> Progs[a.p]
 Effect(a) ==
     CASE a.op = "new" -> [st |-> Fresh, out |-> NoOut]
       [] a.op = "copy" -> [st |-> rts[a.r], out |-> NoOut]
-      [] OTHER -> S!RunOn(rts[a.r], ProgOf(a), Fuel, a.op \in {"run", "hostpanic"} /\ a.route = "eval", IF a.op = "hostpanic" THEN a.k ELSE 0)
+      [] a.op = "limit" -> [st |-> [rts[a.r] EXCEPT !.limit = a.lim], out |-> NoOut]
+      [] OTHER -> S!RunOnX(rts[a.r], ProgOf(a), Fuel, a.op \in {"run", "hostpanic", "interrupt"} /\ a.route = "eval", IF a.op = "hostpanic" THEN a.k ELSE 0,
+                           IF a.op = "interrupt" THEN a.k ELSE 0)
 
 Target(a) == IF a.op \in {"new", "copy"} THEN a.n ELSE a.r
 
@@ -102,7 +119,10 @@ Step(a) ==
         t == Target(a)
         \* vm.Set reports only an error, not a completion value
         out == IF a.op = "set" /\ ~res.out.und /\ res.out.thr = <<>> THEN [res.out EXCEPT !.v = [t |-> "undef"]] ELSE res.out
-    IN  /\ rts' = IF t \in DOMAIN rts THEN [rts EXCEPT ![t] = res.st] ELSE rts @@ (t :> res.st)
+        \* an undecided step (the run left the modelled fragment) says nothing about the runtime afterwards:
+        \* the runtime is out of the model from then on (no later action uses it)
+        st2 == IF out.und THEN Lost ELSE res.st
+    IN  /\ rts' = IF t \in DOMAIN rts THEN [rts EXCEPT ![t] = st2] ELSE rts @@ (t :> st2)
         /\ hist' = Append(hist, a)
         /\ last' = out
         /\ PrintT("VJSON " \o ToJson([path |-> hist, step |-> a, exp |-> out]))
@@ -118,8 +138,8 @@ GoCalls == <<[nm |-> <<98, 117, 109, 112>>, args |-> <<[t |-> "num", n |-> [c |-
 
 Acts ==
     LET d == Len(hist)
-        R == DOMAIN rts
-        nx == Cardinality(R) + 1
+        R == {r \in DOMAIN rts : Live(rts[r])}
+        nx == Cardinality(DOMAIN rts) + 1
     IN  {[op |-> "run", r |-> r, p |-> p, route |-> "source", k |-> 0] : r \in R, p \in PS}
         \cup (IF d >= RouteFrom
               THEN {[op |-> "run", r |-> r, p |-> p, route |-> rt, k |-> 0] : r \in R, p \in PS, rt \in Routes \ {"source"}}
@@ -135,12 +155,19 @@ Acts ==
               THEN {[op |-> "set", r |-> r, nm |-> GoNames[i], val |-> GoVals[j]] : r \in R, i \in 1..Len(GoNames), j \in 1..Len(GoVals)}
                    \cup {[op |-> "get", r |-> r, nm |-> GoNames[i]] : r \in R, i \in 1..Len(GoNames)}
                    \cup {[op |-> "call", r |-> r, nm |-> GoCalls[i].nm, args |-> GoCalls[i].args] : r \in R, i \in 1..Len(GoCalls)}
+                   \cup {[op |-> "limit", r |-> r, lim |-> l] : r \in R, l \in Limits}
+              ELSE {})
+        \cup (IF d >= IntFrom
+              THEN {[op |-> "interrupt", r |-> r, p |-> p, k |-> k, route |-> rt] :      \* k <= SpinCalls[p] below
+                        r \in R, p \in 1..Len(SpinProgs), k \in 1..3, rt \in {"source", "eval"}}      \* (both entry points from the first step on)
               ELSE {})
 
 Init == rts = (1 :> Fresh) /\ hist = <<>> /\ last = NoOut
 
+Enabled(a) == a.op = "interrupt" => a.k <= SpinCalls[a.p]
+
 Next == /\ Len(hist) < MaxLen
-        /\ \E a \in Acts : Step(a)
+        /\ \E a \in Acts : Enabled(a) /\ Step(a)
 
 vars == <<rts, hist, last>>
 (* The history and the reply are hidden; the LENGTH of the history is not: Acts and the bound    *)
@@ -160,9 +187,22 @@ CopyIsValue ==
 
 (* no reply outside the vocabulary: undecided, value, error class, thrown primitive ("v") *)
 ErrClasses == {S!ErrorNames[i] : i \in 1..Len(S!ErrorNames)}
-ReplyOK(o) ==
+ReplyOK(o, intr) ==
     /\ DOMAIN o \in {{"und"}, {"und", "log", "thr", "v"}}
-    /\ (o.und \/ o.thr \in {<<>>, <<118>>} \cup ErrClasses)
-TotalReplies == ReplyOK(last)
-TotalRepliesStep == [][ReplyOK(last')]_vars
+    /\ (o.und \/ o.thr \in {<<>>, <<118>>} \cup ErrClasses \cup (IF intr THEN {<<105>>} ELSE {}))
+TotalReplies == ReplyOK(last, hist # <<>> /\ hist[Len(hist)].op = "interrupt")
+TotalRepliesStep == [][ReplyOK(last', LastAct.op = "interrupt")]_vars
+
+(* an interrupt that was sent is delivered: the run of a SpinProg does not go on to its end,                              *)
+(* and afterwards the runtime is at rest: no execution context, no frames beyond the base frame, nothing pending         *)
+AtRest(st) == st.depth = 0 /\ Len(st.fr) = 1 /\ ~st.aborted /\ st.abortAt = 0 /\ st.abortLog = 0 /\ st.hpanic = 0 /\ st.poll = 0
+(* (the function is sent during the k-th call of H: a run that ends before that call - e.g. with the RangeError of a  *)
+(* stack depth limit - is not interrupted; one that made the call always is)                                        *)
+InterruptDelivered == [][LastAct.op = "interrupt" => (last'.und \/ last'.thr = <<105>> \/ Len(last'.log) < LastAct.k)]_vars
+RestAfterEveryAction == \A r \in DOMAIN rts : Live(rts[r]) => AtRest(rts[r])
+(* the stack depth limit is per runtime: kept by Copy, changed only by "limit" on that runtime, fresh runtimes have none *)
+LimitIsPerRuntime ==
+    [][/\ (LastAct.op = "new" => rts'[LastAct.n].limit = 0)
+       /\ (LastAct.op = "limit" => rts'[LastAct.r].limit = LastAct.lim)
+       /\ \A x \in DOMAIN rts : (LastAct.op # "limit" /\ Live(rts[x]) /\ Live(rts'[x])) => rts'[x].limit = rts[x].limit]_vars
 =============================================================================
